@@ -501,3 +501,48 @@ RULES.append(('15.R', 'state resets: every reviewed constant write to persistent
 RULES.append(('15.P', 'panic sites: no reviewed function that parses / handles untrusted input gained an unwrap / expect / explicit panic / bounds-checked index / length-checked copy / division (rules/provenance.py; panic freedom itself is not decided)', lambda F: provenance.panics_for_property(F, 'C15', '15.P')))
 RULES.append(('15.M', 'collection mutations: every reviewed (function, stored collection, mutator class: add / remove / filter / empty / swap / order) triple is still present - an entry that is no longer removed, inserted or drained on one path (rules/mutations.py)', lambda F: mutations.for_property(F, 'C15', '15.M')))
 RULES.append(('15.G', 'guard census: no reviewed call of a workspace function and no reviewed mutation of a stored collection gained a controlling branch condition (an added `&& cond`, early return / continue, more specific match arm in front of an act); counts per call site, name free (rules/guards.py)', lambda F: guards.for_property(F, 'C15', '15.G')))
+
+def r15n(F):
+	"""a fresh ephemeral Noise key per connection: PeerManager::get_ephemeral_key hashes the very engine into which the per-connection counter was
+	fed - the value handed to Sha256::from_engine is the local on which `input(counter bytes)` was called, and those bytes come from
+	peer_counter.next().  With a key that does not depend on the counter every connection of the node uses the same ephemeral key, and a recorded
+	session of an honest peer replays successfully on a new connection (act three authenticates, the recorded messages are processed)"""
+	fn = PM + 'get_ephemeral_key'
+	fu = F.func(fn)
+	ex = Expr(fu)
+	fe = [(b, ci) for b, ci in fu.calls() if norm(ci.get('f') or ci.get('t') or '').endswith('from_engine')]
+	inp = [(b, ci) for b, ci in fu.calls() if norm(ci.get('f') or ci.get('t') or '').endswith('::input') and len(ci['args']) >= 2]
+	if not fe or not inp:
+		return [Result('15.n', False, 'anchor:ephemeral-key', 'get_ephemeral_key: from_engine / input calls not found (%d/%d)' % (len(fe), len(inp)), where=F.where(fn))]
+	out = []
+	for b, ci in fe:
+		a = ci['args'][0]
+		loc = a[1][0] if a[0] in ('c', 'm') and len(a[1]) == 1 else None
+		for _ in range(4):   # `_t = move engine` temporaries
+			ds = fu.defs.get(loc, []) if loc is not None else []
+			if len(ds) == 1 and ds[0][3][0] == 'use' and ds[0][3][1][0] in ('c', 'm') and len(ds[0][3][1][1]) == 1:
+				loc = ds[0][3][1][1][0]
+			else:
+				break
+		fed = []
+		for b2, c2 in inp:
+			r = ex.of_operand(c2['args'][0])
+			while r[0] in ('ref', 'deref'):
+				r = r[1]
+			tgt = r[1] if r[0] == 'local' else None
+			# the raw operand: a temporary holding `&mut engine`
+			o = c2['args'][0]
+			if tgt is None and o[0] in ('c', 'm'):
+				for d in fu.defs.get(o[1][0], []):
+					if d[3][0] == 'ref' and len(d[3][2]) == 1:
+						tgt = d[3][2][0]
+			data = ex.of_operand(c2['args'][1])
+			calls = expr_leaves(data)['calls'] if isinstance(expr_leaves(data), dict) else set()
+			from_counter = any(str(c).endswith('next') for c in calls) and 'peer_counter' in leaf_key(data)
+			if tgt is not None and tgt == loc and from_counter and b in fu.reach([b2]):
+				fed.append(b2)
+		ok = bool(fed)
+		out.append(Result('15.n', ok, ('ok:' if ok else 'shape:') + 'ephemeral-key-from-counter', 'get_ephemeral_key: the engine hashed into the key is the one the per-connection counter (peer_counter.next()) was fed into' if ok else 'get_ephemeral_key: the engine handed to Sha256::from_engine (%s) is not the local into which the per-connection counter was fed: every connection gets the same ephemeral key and a recorded handshake + session replays on a new connection' % expr_str(ex.of_operand(a))[:80], 1 + len(inp), where=F.where(fn, fu.line_of(b))))
+	return out
+
+RULES.append(('15.n', 'a fresh ephemeral key per connection: get_ephemeral_key hashes the engine into which peer_counter.next() was fed (data-flow rule)', r15n))
